@@ -14,8 +14,8 @@ PROP = {
         'fewer than 2^32 controller threads / live BlockingHandles (u32 blocker count does not wrap); '
         'running_cmd (i64) does not wrap',
         'the inner (backend) sender either accepts a task (keeps the CounterTask until the reply) or answers '
-        'Retry(task); the re-dispatch sender does not re-enter the queue synchronously (re-entry = a new '
-        'sender thread of the model)',
+        'Retry(task); a re-dispatch sender that re-enters TaskBlockingQueue::send synchronously (production: '
+        'loop_send_cmd_ctx) is over-approximated by a fresh sender thread of the (arbitrary) pool',
     ],
     'gaps': [
         'C11_redisp_timing_partial: "re-dispatched only after blocking stops" is proved under the hypothesis '
